@@ -18,12 +18,16 @@ type pqShape struct {
 }
 
 type pqOp struct {
+	peek   bool // look at the next chunk and leave it (what the sender does when the window is closed)
 	pop    bool
 	stream uint16
 	shape  pqShape
 }
 
 func (o pqOp) String() string {
+	if o.peek {
+		return "peek"
+	}
 	if o.pop {
 		return "pop"
 	}
@@ -79,6 +83,11 @@ func pqRun(pc pqPolicyCfg, ops []pqOp, fail func(oracle, msg string)) []pqEvent 
 	nChunks, nBytes := 0, 0
 	msgNo := 0
 	for _, op := range ops {
+		if op.peek {
+			// a look without taking: it must not commit the scheduler to anything
+			_ = q.peek()
+			continue
+		}
 		if !op.pop {
 			var head *chunkPayloadData
 			unordered := op.stream == 2
@@ -264,7 +273,7 @@ func c17Scheduler(j *Job) {
 	P := 72
 	shapes := []pqShape{{1, 1}, {1, P}, {2, 4}, {3, P}}
 	var alphabet []pqOp
-	alphabet = append(alphabet, pqOp{pop: true})
+	alphabet = append(alphabet, pqOp{pop: true}, pqOp{peek: true})
 	for _, s := range []uint16{1, 2, 3} {
 		for _, sh := range shapes {
 			alphabet = append(alphabet, pqOp{stream: s, shape: sh})
@@ -323,6 +332,23 @@ func c17Scheduler(j *Job) {
 				}
 				for k := 0; k < 80; k++ {
 					ops = append(ops, pqOp{pop: true})
+				}
+				// the same with a look at the queue (window closed) between the first stream's
+				// messages and the others'
+				if sh.frags > 1 {
+					ops2 := []pqOp{{stream: 1, shape: pqShape{14, P}}, {pop: true}, {pop: true}, {pop: true}, {peek: true}, {stream: 3, shape: pqShape{14, P}}}
+					for k := 0; k < 26; k++ {
+						ops2 = append(ops2, pqOp{pop: true})
+					}
+					bad2 := false
+					fail2 := func(oracle, msg string) {
+						bad2 = true
+						j.failSeq("pq."+oracle, "pq/"+pc.name+"/drain-after-peek", fmt.Sprintf("%s: %s", pc.name, msg), nil)
+					}
+					tr := pqRun(pc, ops2, fail2)
+					if !bad2 {
+						pqCheckTrace(pc, tr, fail2)
+					}
 				}
 				bad := false
 				fail := func(oracle, msg string) {
